@@ -23,6 +23,7 @@ for log in recheck:
     for line in open(log):
         m = re.match(pat, line.strip())
         if m and m.group(1) in results:
+            results[m.group(1)].setdefault('first', results[m.group(1)]['caught'])
             results[m.group(1)]['caught'] = m.group(6).split()
             results[m.group(1)]['rechecked'] = True
 head = subprocess.check_output(['git', '-C', '/repo', 'log', '--format=%h', '-1']).decode().strip()
@@ -68,6 +69,7 @@ for label, r in sorted(results.items()):
             'run.sh /repo (exit 0)', 'run.sh <patched worktree> (exit non-zero)',
             'bebopcheck multi <all 19 properties> --repo <patched worktree>' + (' (re-run with the final checker)' if r.get('rechecked') else ''),
         ],
+        'checks_reporting_VIOLATION_when_the_seed_was_first_run': [c for c in r.get('first', r['caught']) if '(' not in c],
         'checks_reporting_VIOLATION': caught,
         'checks_undecided': [c.replace('(undecided)', '') for c in undecided],
         'caught_by_own_property_check': prop in caught,
